@@ -14,7 +14,8 @@ vars == <<tree, added, order>>
 
 Kws == {"type", "required", "minimum"}
 \* mixed key types inside one path are modelled with tagged elements
-El == { [s |-> "a"], [s |-> "b"], [i |-> 0], [i |-> 1] }
+\* "a.b" and "a[0]" are single keys that LOOK like nested locations in dotted / bracketed renderings of a path
+El == { [s |-> "a"], [s |-> "b"], [i |-> 0], [s |-> "a.b"], [s |-> "a[0]"] }
 TPaths == UNION { [1 .. n -> El] : n \in 0 .. MaxPath }
 Errors == { [p |-> p, kw |-> k] : p \in TPaths, k \in Kws }
 
